@@ -217,7 +217,50 @@ def applyV (lastWins : Bool) (cfg : Cfg) (ds : Dists D) (ord : List Id) (g : Gra
 def apply (cfg : Cfg) (ds : Dists D) (ord : List Id) (g : Graph) (batch : List Change) : Except Err Graph :=
   applyV true cfg ds ord g batch
 
+/-- everything of `insertUpdateDelete` AFTER the insert workers have been waited for
+(`<-MergeErrorsWithContext`): `removeInboundEdges`, the two `Delete`s, the re-insert loop.  This part of
+the Go code is single-threaded, so it is a function of the graph the workers left behind (`acc.g`) and of
+the bookkeeping of the classification (`updated`, `deleted`, `touched`).  `applyV` is `classifyAll` followed
+by `tail` (`applyV_tail`, by `rfl`). -/
+def tail (cfg : Cfg) (ds : Dists D) (ord : List Id) (acc : Acc) : Except Err Graph :=
+  match (if acc.touched.isEmpty then .ok acc.g else removeInbound cfg ds ord acc.touched acc.g) with
+  | .error e => .error e
+  | .ok g1 => reinsertAll cfg ds acc.updated (deleteNodes g1 acc.deleted)
+
 end
+
+/-! ### the bookkeeping of the classification, without the graph
+
+What the transform function at the head of `insertUpdateDelete` files a change under depends only on
+`insertedHere || vecStore.Exists(id)` and on its own lists — not on any edge, any distance, nor on how far
+an insert worker has got.  `classes` is that bookkeeping alone; `C10_classes` proves that the sequential
+model's `classifyAll` computes exactly these lists whatever the distances are, and
+`C10_step_any_workers` that the rest of the batch (`tail`) re-establishes well-formedness from ANY graph
+the workers may have left, as long as that graph is well-formed for the old live points plus `ins`. -/
+
+structure Classes where
+  ins : List Id := []        -- `insertedIds` (in the order of the hand-over to the workers)
+  upd : List Id := []        -- ids of `updatedPoints`, in order
+  del : List Id := []        -- `deletedPointsIds`, in order
+  tch : List Id := []        -- `toRemoveInBoundNodeIds` (most recent first; a set in the code)
+  maxId : Nat := 0           -- `maxNodeId`
+  deriving Repr, DecidableEq
+
+/-- one call of the transform function (`has0 i` = `vecStore.Exists(i)` before the batch) -/
+def classStep (lastWins : Bool) (has0 : Id → Bool) (k : Classes) (c : Change) : Classes :=
+  let ex := k.ins.contains c.id || has0 c.id
+  let k :=
+    if lastWins && k.tch.contains c.id then
+      { k with upd := k.upd.filter (· != c.id), del := k.del.filter (· != c.id) }
+    else k
+  match ex, c.hasVector with
+  | false, false => k
+  | false, true => { k with ins := k.ins ++ [c.id], maxId := if c.id > k.maxId then c.id else k.maxId }
+  | true, true => { k with upd := k.upd ++ [c.id], tch := c.id :: k.tch }
+  | true, false => { k with del := k.del ++ [c.id], tch := c.id :: k.tch }
+
+def classes (lastWins : Bool) (has0 : Id → Bool) (maxId : Nat) (batch : List Change) : Classes :=
+  batch.foldl (classStep lastWins has0) { maxId := maxId }
 
 /-! ### the specification side: which points carry the field, and well-formedness -/
 
